@@ -279,6 +279,8 @@ MUTANTS = [
     ("singular_test_offsets_int16", "bempp_cl/core/singular_assembler.py", "        test_offsets = _np.empty(self.index_count[\"all\"], dtype=\"uint32\")", "        test_offsets = _np.empty(self.index_count[\"all\"], dtype=_np.int16)", 0, ["C01", "C03"]),
     ("coefficients_pack_promotion_after_loop", "bempp_cl/api/assembly/blocked_operator.py", "    for item in grid_funs:\n        input_type = _np.promote_types(input_type, item.coefficients.dtype)\n        vec_len += item.space.global_dof_count\n", "    for item in grid_funs:\n        vec_len += item.space.global_dof_count\n    input_type = _np.promote_types(input_type, item.coefficients.dtype)\n", 0, ["C14", "C15"]),
     ("triangle_rule_lower_bound_dropped", "bempp_cl/api/integration/triangle_gauss.py", "    if order < 1 or order > 20:\n", "    if order > 20:\n", 0, ["C12"]),
+    ("cl_helmholtz_sl_decay_only_positive_imag", "bempp_cl/core/sources/include/kernels.h", "    if (kernel_parameters[1] != M_ZERO) {", "    if (kernel_parameters[1] > M_ZERO) {", 0, ["C20"]),
+    ("numba_helmholtz_adl_decay_only_negative_imag", "bempp_cl/core/numba_kernels.py", "    if wavenumber_imag != 0:", "    if wavenumber_imag < 0:", 3, ["C05"]),
     ("potential_rule_in_closure_global", "bempp_cl/core/numba_assemblers.py", "    def evaluator(x):\n        \"\"\"Actually evaluate the potential.\"\"\"\n", "    def evaluator(x):\n        \"\"\"Actually evaluate the potential.\"\"\"\n        quad_points, quad_weights = rule(parameters.quadrature.regular)\n", 0, ["C18"]),
 ]
 
